@@ -43,10 +43,11 @@ fn plan(t: Tier) -> Vec<ClassPlan> {
         Tier::Thorough => 20,
     };
     vec![
-        ClassPlan { class: "prog", cases: 60_000 * k, min_len: 24, max_len: 420 },
+        ClassPlan { class: "prog", cases: 55_000 * k, min_len: 24, max_len: 420 },
         ClassPlan { class: "claims", cases: 8_000 * k, min_len: 24, max_len: 300 },
         ClassPlan { class: "late-abort", cases: 4_000 * k, min_len: 24, max_len: 300 },
         ClassPlan { class: "listener-after-destroy", cases: 3_000 * k, min_len: 24, max_len: 300 },
+        ClassPlan { class: "small-credit", cases: 8_000 * k, min_len: 24, max_len: 300 },
     ]
 }
 
@@ -63,12 +64,14 @@ pub fn exclude_f6() -> bool {
 }
 
 fn decode(class: &str, tape: &[u8]) -> Program {
-    let allow = Allow {
-        refused_claims: class == "claims" && !exclude_f2(),
-        late_abort: class == "late-abort" && !exclude_f5(),
-        listener_after_destroy: class == "listener-after-destroy" && !exclude_f6(),
+    let aim = match class {
+        "claims" => Aim::Claims,
+        "late-abort" => Aim::LateAbort,
+        "listener-after-destroy" => Aim::ListenerAfterDestroy,
+        "small-credit" => Aim::SmallCredit,
+        _ => Aim::Mixed,
     };
-    decode_program(tape, allow, 48)
+    decode_program(tape, Allow::from_env(), aim, 48)
 }
 
 fn render(class: &str, tape: &[u8]) -> String {
@@ -111,21 +114,14 @@ pub fn run(p: &Program) -> Outcome {
 }
 
 fn run_inner(p: &Program) -> Result<Outcome, Outcome> {
-    let mut rig = Rig::connect(
-        p.sched_seed,
-        p.policy,
-        &p.clients,
-        Allow { refused_claims: p.allow_refused_claims, late_abort: p.allow_late_abort, listener_after_destroy: p.allow_listener_after_destroy },
-    )?;
+    let mut rig = Rig::connect(p.sched_seed, p.policy, &p.clients, p.allow())?;
     let mut idle_slot = None;
-    // Known finding F7 (reported under C15): a connection that is still forwarding client
-    // messages when the broker has already left its run loop ends with UnexpectedShutdown and the
-    // client sees a disconnect instead of the Shutdown message. Here that needs a broker-initiated
-    // connection shutdown while the broker may stop on idle; excluded by construction.
+    // Repaired finding F7: a broker-initiated connection shutdown while the broker may stop on
+    // idle used to lose the Shutdown message of a connection that was still forwarding.
     let kick = p.clients.iter().any(|c| c.final_mode == FinalMode::BrokerKick);
-    let idle_early = p.idle_early && !kick;
+    let idle_early = p.idle_early && (!kick || p.allow_broker_shutdown_in_flight);
     if p.idle_early && kick {
-        rig.world.count("excluded:f7");
+        rig.world.count(if idle_early { "kick+idle-early" } else { "excluded:f7" });
     }
     if idle_early {
         let mut bh = rig.net.broker.clone();
@@ -275,7 +271,12 @@ fn run_inner(p: &Program) -> Result<Outcome, Outcome> {
         ("excluded:f6", "excluded:f6"),
         ("excluded:f7", "excluded:f7"),
         ("listener-polled-after-destroy", "listener-polled-after-destroy"),
-        ("late-abort", "late-abort"),
+        ("reply-dropped-during-shutdown", "late-abort"),
+        ("claim-cancelled", "claim-cancelled"),
+        ("broker-shutdown", "op:broker-shutdown"),
+        ("broker-shutdown-in-flight", "broker-shutdown-in-flight"),
+        ("client-shutdown-races-broker-shutdown", "client-shutdown-races-broker-shutdown"),
+        ("kick+idle-early", "kick+idle-early"),
         ("call:answered", "call:ok"),
         ("call:legitimately-pending", "call:legitimately-pending"),
         ("call:aborted-by-drop", "call:aborted-by-drop"),
@@ -294,6 +295,21 @@ fn run_inner(p: &Program) -> Result<Outcome, Outcome> {
     }
     if phases >= 1 {
         classes.push("phases>=2");
+    }
+    // credit top-up paths of the client-level Sender/Receiver: more items than the receiver's
+    // capacity went through a channel of capacity <= 4
+    {
+        let b = w.board.borrow();
+        let topup = b.chans.iter().any(|(c, i)| i.rcv_cap >= 1 && i.rcv_cap <= 4 && b.received.get(c).copied().unwrap_or(0) > i.rcv_cap as u64);
+        if topup {
+            classes.push("credit-topup:cap<=4");
+            if p.clients.iter().any(|c| matches!(c.tkind, TKind::Bounded(n) if n <= 2)) {
+                classes.push("credit-topup:cap<=4:bounded<=2");
+            }
+        }
+        if b.chans.values().any(|i| i.rcv_cap == 1) && b.received.values().any(|n| *n >= 2) {
+            classes.push("credit:cap=1");
+        }
     }
     let nontrivial = n_clients >= 2 && w.stat("drop-with-inflight") > 0 && w.stat("cross-client-race") > 0;
     let key = format!("{:?}|{:?}|{}|{}|{}", p.tasks, p.clients, p.sched_seed, p.policy % 8, p.det_seed);
